@@ -1043,7 +1043,7 @@ func onlyErrorOrLog(b *ssa.BasicBlock) bool {
 			return false
 		case ssa.CallInstruction:
 			n := calleeName(x)
-			if n == "log.Printf" || n == "fmt.Sprintf" || strings.HasSuffix(n, "parser.NewParseError") || strings.HasSuffix(n, "parser.NewRangeParseError") || strings.HasPrefix(n, "invoke:") {
+			if n == "log.Printf" || n == "fmt.Sprintf" || isErrorCtorCall(x) || strings.HasPrefix(n, "invoke:") {
 				continue
 			}
 			return false
